@@ -1,6 +1,7 @@
 package main
 
 import (
+	"go/types"
 	"strings"
 
 	"golang.org/x/tools/go/ssa"
@@ -42,6 +43,29 @@ func propC19(a *Analysis, r *Registry) {
 			var poNum *RF
 			nInit, nRootSelf, nRootReset, nUpdate := 0, 0, 0, 0
 			var updStore, resetStore *ssa.Store
+			// (the post-order numbering may be filled by a helper)
+			for _, sfc := range fc.BoundCallees(1)[1:] {
+				sfc := sfc
+				sfc.Ctx.Instrs(func(in ssa.Instruction) {
+					st, ok := in.(*ssa.Store)
+					if !ok {
+						return
+					}
+					ia, ok := st.Addr.(*ssa.IndexAddr)
+					if !ok {
+						return
+					}
+					idx, val := sfc.Val(ia.Index), sfc.Val(st.Val)
+					if ea := idx.SingleAtom(); ea != nil && ea.Name == "idx" && ea.Args[0].Equal(po) {
+						poNum = sfc.Val(ia.X)
+						if val.Equal(ea.Args[1]) {
+							r.OK(rB, name+"/poNum", a.W.InstrPos(st), "poNum[po[i]] = i")
+						} else {
+							r.Fail(rB, name+"/poNum", a.W.InstrPos(st), "post-order numbers are not the positions in the post-order")
+						}
+					}
+				})
+			}
 			fc.Ctx.Instrs(func(in ssa.Instruction) {
 				st, ok := in.(*ssa.Store)
 				if !ok {
@@ -134,29 +158,91 @@ func propC19(a *Analysis, r *Registry) {
 			env.Set("p", p, nil)
 			b.Eq(rB, name+"/newIdom-init", a.W.InstrPos(updStore), ni, env, "-1")
 			b.Eq(rB, name+"/newIdom-step", a.W.InstrPos(updStore), nn, env, "ite(idom[p]==-1, nw, ite(nw==-1, p, intersect(idom, poNum, p, nw)))")
-			// changed: set on update, loop while changed, cleared per sweep
-			var chOuter *RF
-			for _, l := range fc.Ctx.Loops() {
-				if ifi, ok := l.Header.Instrs[len(l.Header.Instrs)-1].(*ssa.If); ok {
-					if c := fc.Val(ifi.Cond); c.SingleAtom() != nil && strings.HasPrefix(c.SingleAtom().Name, "phi:") && !S.atoms[c.SingleAtom().ID].Int {
-						chOuter = c
+			// changed: cleared per sweep, set on update, and the sweeps repeat exactly while it was set
+			b.AnyOf(func() {
+				// changed := true; for changed { changed = false; sweep }
+				var chOuter *RF
+				for _, l := range fc.Ctx.Loops() {
+					if ifi, ok := l.Header.Instrs[len(l.Header.Instrs)-1].(*ssa.If); ok {
+						if c := fc.Val(ifi.Cond); c.SingleAtom() != nil && strings.HasPrefix(c.SingleAtom().Name, "phi:") && !S.atoms[c.SingleAtom().ID].Int {
+							chOuter = c
+						}
 					}
 				}
-			}
-			if chOuter == nil {
-				r.Fail(rB, name+"/iterate-while-changed", b.pos(fn), "no `for changed` loop")
-				return
-			}
-			ci, cn := fc.Recurrence(chOuter)
-			b.EqRF(rB, name+"/changed-init", b.pos(fn), ci, S.True(), "the first sweep always runs")
-			if ca := cn.SingleAtom(); ca != nil && strings.HasPrefix(ca.Name, "phi:") {
-				i2, n2 := fc.Recurrence(cn)
-				env.Set("ch", cn, nil)
-				b.EqRF(rB, name+"/changed-cleared-per-sweep", b.pos(fn), i2, S.False(), "changed is cleared at the start of each sweep")
+				if chOuter == nil {
+					r.Fail(rB, name+"/iterate-while-changed", b.pos(fn), "no `for changed` loop")
+					return
+				}
+				ci, cn := fc.Recurrence(chOuter)
+				b.EqRF(rB, name+"/changed-init", b.pos(fn), ci, S.True(), "the first sweep always runs")
+				if ca := cn.SingleAtom(); ca != nil && strings.HasPrefix(ca.Name, "phi:") {
+					i2, n2 := fc.Recurrence(cn)
+					env.Set("ch", cn, nil)
+					b.EqRF(rB, name+"/changed-cleared-per-sweep", b.pos(fn), i2, S.False(), "changed is cleared at the start of each sweep")
+					b.Eq(rB, name+"/changed-set-on-update", b.pos(fn), n2, env, "ite(b==root, ch, ite(idom[b]!=nw, true, ch))")
+				} else {
+					r.Fail(rB, name+"/changed", b.pos(fn), "changed is not carried through the sweep: "+clip(cn.String(), 160))
+				}
+			}, func() {
+				// for { changed := false; sweep; if !changed { break } }
+				var ch *RF
+				var sweep *Loop
+				for _, l := range fc.Ctx.Loops() {
+					for _, in := range l.Header.Instrs {
+						p, ok := in.(*ssa.Phi)
+						if !ok {
+							break
+						}
+						if bt, isB := p.Type().Underlying().(*types.Basic); isB && bt.Kind() == types.Bool {
+							v := fc.Val(p)
+							if i2, _ := fc.Recurrence(v); i2.Equal(S.False()) {
+								ch, sweep = v, l
+							}
+						}
+					}
+				}
+				if ch == nil {
+					r.Fail(rB, name+"/iterate-while-changed", b.pos(fn), "no per-sweep `changed` flag starting at false")
+					return
+				}
+				_, n2 := fc.Recurrence(ch)
+				env.Set("ch", ch, nil)
+				r.OK(rB, name+"/changed-cleared-per-sweep", b.pos(fn), "changed starts at false in every sweep")
 				b.Eq(rB, name+"/changed-set-on-update", b.pos(fn), n2, env, "ite(b==root, ch, ite(idom[b]!=nw, true, ch))")
-			} else {
-				r.Fail(rB, name+"/changed", b.pos(fn), "changed is not carried through the sweep: "+clip(cn.String(), 160))
-			}
+				// the enclosing loop is left exactly when the sweep ended with changed == false
+				var outer *Loop
+				for _, l := range fc.Ctx.Loops() {
+					if l.Header != sweep.Header && l.Body[sweep.Header.Index] {
+						outer = l
+					}
+				}
+				if outer == nil {
+					r.Fail(rB, name+"/iterate-while-changed", b.pos(fn), "the sweep is not repeated")
+					return
+				}
+				okExit, exits := false, 0
+				for bi := range outer.Body {
+					blk := fn.Blocks[bi]
+					for k, sc := range blk.Succs {
+						if outer.Body[sc.Index] || !fc.Ctx.EdgeLive(blk, k) {
+							continue
+						}
+						exits++
+						if ifi, isIf := blk.Instrs[len(blk.Instrs)-1].(*ssa.If); isIf {
+							c := fc.Val(ifi.Cond)
+							if k == 1 && c.Equal(ch) || k == 0 && c.Equal(S.Not(ch)) {
+								okExit = true
+							}
+						}
+					}
+				}
+				if okExit && exits == 1 {
+					r.OK(rB, name+"/changed-init", b.pos(fn), "the first sweep always runs (do-while form)")
+					r.OK(rB, name+"/iterate-while-changed", b.pos(fn), "the sweeps stop exactly when one ends with changed == false")
+				} else {
+					r.Fail(rB, name+"/iterate-while-changed", b.pos(fn), "the sweep loop is not left exactly when a sweep ends with changed == false")
+				}
+			})
 		})
 	}
 	if fn := b.Fn(rB, pkg+"intersect"); fn != nil {
@@ -281,13 +367,7 @@ func propC19(a *Analysis, r *Registry) {
 				r.Fail(rB, name+"/walk-until-idom(b)", a.W.InstrPos(ifi), "walk condition is "+clip(wc.String(), 160))
 			}
 			// joins only
-			joins := false
-			for _, f := range fc.Ctx.Facts(app.Block()) {
-				c := fc.Val(f.Cond)
-				if !f.Val && c.Equal(env.MustParse("len(g.In(b))<2")) {
-					joins = true
-				}
-			}
+			joins := fc.RefutedAt(app.Block(), env.MustParse("len(g.In(b))<2"))
 			if joins {
 				r.OK(rB, name+"/joins-only", a.W.InstrPos(app), "only nodes with at least two predecessors contribute")
 			} else {
@@ -295,9 +375,6 @@ func propC19(a *Analysis, r *Registry) {
 			}
 			// inserted once: a membership scan precedes the insertion
 			scan := false
-			for _, f := range fc.Ctx.Facts(app.Block()) {
-				_ = f
-			}
 			fc.Ctx.Instrs(func(in ssa.Instruction) {
 				if ifi2, ok := in.(*ssa.If); ok {
 					if c := fc.Val(ifi2.Cond).SingleAtom(); c != nil && c.Name == "cmp==" {
@@ -311,6 +388,29 @@ func propC19(a *Analysis, r *Registry) {
 					}
 				}
 			})
+			if !scan {
+				// or: the insertion is guarded by !contains(df[runner], b) for a helper that scans its
+				// first argument for its second and reports whether it found it
+				for _, f := range fc.Ctx.Facts(app.Block()) {
+					c := fc.Val(f.Cond)
+					neg := !f.Val
+					for {
+						ca := c.SingleAtom()
+						if ca != nil && ca.Name == "not" {
+							c, neg = ca.Args[0], !neg
+							continue
+						}
+						break
+					}
+					ca := c.SingleAtom()
+					if ca == nil || !neg || len(ca.Args) != 2 || !ca.Args[0].Equal(fc.Val(app.Call.Args[0])) || !ca.Args[1].Equal(bnode) {
+						continue
+					}
+					if hf := a.W.Fn(ca.Name); hf != nil && isMembershipScan(X, hf) {
+						scan = true
+					}
+				}
+			}
 			if scan {
 				r.OK(rB, name+"/inserted-once", a.W.InstrPos(app), "df[runner] is scanned for b before b is appended")
 			} else {
@@ -331,10 +431,20 @@ func propC19(a *Analysis, r *Registry) {
 						mentionsPred = true
 					}
 				}
-				if ca := c.SingleAtom(); ca != nil && isCmpName(ca.Name) {
-					for _, sd := range ca.Args {
-						if sd.Equal(S.Int(-1)) {
-							mentionsSentinel = true
+				for _, ca := range c.Atoms(true) {
+					if isCmpName(ca.Name) {
+						for k, sd := range ca.Args {
+							if sd.Equal(S.Int(-1)) {
+								// the other side must be about the predecessor (idom[pred])
+								for _, oa := range ca.Args[1-k].Atoms(true) {
+									if oa.ID == ri.SingleAtom().ID {
+										mentionsSentinel = true
+									}
+								}
+								if ca.Args[1-k].Equal(ri) {
+									mentionsSentinel = true
+								}
+							}
 						}
 					}
 				}
@@ -367,39 +477,36 @@ func propC19(a *Analysis, r *Registry) {
 			fc := X.FCFor(fn)
 			env := X.EnvFor(fn, "idom")
 			nCount, nAppend := 0, 0
-			fc.Ctx.Instrs(func(in ssa.Instruction) {
-				switch v := in.(type) {
-				case *ssa.Store:
-					if fc.isIncrement(v) {
-						ia := v.Addr.(*ssa.IndexAddr)
-						par := fc.Val(ia.Index)
-						ok := false
-						for _, f := range fc.Ctx.Facts(v.Block()) {
-							if f.Val && fc.Val(f.Cond).Equal(S.Cmp("!=", par, S.Int(-1))) {
-								ok = true
+			// (the counting pass may be done by a helper)
+			for _, sfc := range fc.BoundCallees(1) {
+				sfc := sfc
+				sfc.Ctx.Instrs(func(in ssa.Instruction) {
+					switch v := in.(type) {
+					case *ssa.Store:
+						if sfc.isIncrement(v) {
+							ia := v.Addr.(*ssa.IndexAddr)
+							par := sfc.Val(ia.Index)
+							ok := sfc.RefutedAt(v.Block(), S.Cmp("==", par, S.Int(-1)))
+							if pa := par.SingleAtom(); ok && pa != nil && pa.Name == "idx" && pa.Args[0].Equal(env.Vars["idom"].RF) {
+								nCount++
 							}
 						}
-						if pa := par.SingleAtom(); ok && pa != nil && pa.Name == "idx" && pa.Args[0].Equal(env.Vars["idom"].RF) {
-							nCount++
-						}
-					}
-				case *ssa.Call:
-					if bi, isB := v.Call.Value.(*ssa.Builtin); isB && bi.Name() == "append" {
-						dst := fc.Val(v.Call.Args[0]).SingleAtom()
-						vals := fc.AppendedValues(v)
-						if dst != nil && dst.Name == "idx" && len(vals) == 1 {
-							par := dst.Args[1].SingleAtom()
-							if par != nil && par.Name == "idx" && par.Args[0].Equal(env.Vars["idom"].RF) && par.Args[1].Equal(vals[0]) {
-								for _, f := range fc.Ctx.Facts(v.Block()) {
-									if f.Val && fc.Val(f.Cond).Equal(S.Cmp("!=", dst.Args[1], S.Int(-1))) {
+					case *ssa.Call:
+						if bi, isB := v.Call.Value.(*ssa.Builtin); isB && bi.Name() == "append" {
+							dst := sfc.Val(v.Call.Args[0]).SingleAtom()
+							vals := sfc.AppendedValues(v)
+							if dst != nil && dst.Name == "idx" && len(vals) == 1 {
+								par := dst.Args[1].SingleAtom()
+								if par != nil && par.Name == "idx" && par.Args[0].Equal(env.Vars["idom"].RF) && par.Args[1].Equal(vals[0]) {
+									if sfc.RefutedAt(v.Block(), S.Cmp("==", dst.Args[1], S.Int(-1))) {
 										nAppend++
 									}
 								}
 							}
 						}
 					}
-				}
-			})
+				})
+			}
 			if nCount == 1 && nAppend == 1 {
 				r.OK(rB, name+"/inverts-idom", b.pos(fn), "children are counted per parent and each node is appended to children[idom[node]], both skipping the -1 sentinel")
 			} else {
@@ -408,4 +515,39 @@ func propC19(a *Analysis, r *Registry) {
 		})
 	}
 	b.CheckDFloor("D-floor")
+}
+
+// isMembershipScan: f(xs, v) loops over xs, returns true when an element
+// equals v and false otherwise.
+func isMembershipScan(X *Extractor, f *ssa.Function) bool {
+	if len(f.Params) != 2 || f.Signature.Results().Len() != 1 {
+		return false
+	}
+	fc := X.FCFor(f)
+	xs, v := X.ParamRF(f, 0), X.ParamRF(f, 1)
+	foundTrue, foundFalse, other := false, false, false
+	for _, rt := range fc.Ctx.Returns() {
+		val := fc.Val(rt.Results[0])
+		switch {
+		case val.Equal(X.S.True()):
+			// reached from a comparison xs[i] == v
+			for _, fct := range fc.Ctx.Facts(rt.Block()) {
+				c := fc.Val(fct.Cond).SingleAtom()
+				if fct.Val && c != nil && c.Name == "cmp==" {
+					for k := 0; k < 2; k++ {
+						if c.Args[k].Equal(v) {
+							if ea := c.Args[1-k].SingleAtom(); ea != nil && ea.Name == "idx" && ea.Args[0].Equal(xs) {
+								foundTrue = true
+							}
+						}
+					}
+				}
+			}
+		case val.Equal(X.S.False()):
+			foundFalse = true
+		default:
+			other = true
+		}
+	}
+	return foundTrue && foundFalse && !other && len(fc.Ctx.Loops()) == 1
 }
